@@ -27,6 +27,10 @@ mod c04_neighbours;
 mod c05_tree;
 #[cfg(kani)]
 mod c01_decomp;
+#[cfg(kani)]
+mod c10_svm;
+#[cfg(kani)]
+mod c12_kmeans;
 
 #[cfg(kani)]
 mod playback_slot;
